@@ -240,6 +240,10 @@ def run(prog: Program, rep: Report, tier: str) -> None:
         if not ok or len(seen) <= 12:
             rep.check("R13.4", npf.qual, f"path {p.describe()}", ok, what_bad=what, what_ok=what, loc=npf.loc())
     rep.check("R13.4", npf.qual, "all paths end in return <period> or raise ValueError", all(p.exit in ("return", "raise") for p in paths), what_bad="a path falls through", what_ok=f"{len(paths)} paths", loc=npf.loc())
+    from ..share import share
+
+    share(prog, rep, "C06", ("R06.3",), "R13.6", "the time coordinate of a record is the clock's own conversion at the time of writing", 2)
+
 
 
 # ---------------------------------------------------------------------------
